@@ -476,7 +476,8 @@ def gen_program(rng, n_hist, force=None):
                     ents.append([k, fresh(shp)])
             if rng.random() < 0.5:
                 ents = ents[::-1]
-            emit({"i": "newtd", "ents": ents, "bs": sbs})
+            # same device as the fixture: a value of another device is cast by _validate_value (a new node object; C01's subject)
+            emit({"i": "newtd", "ents": ents, "bs": sbs, "device": dev})
             return len(it.regs) - 1
         sbs = it.bs(r) if shape_of is None else shape_of(None)
         return build(tree, sbs)
